@@ -148,6 +148,25 @@ impl DocumentStore {
         )
     }
 }
+impl DocumentStore {
+    // canonical coherence token of a live document (oracle `cold.token_of(id)` of DESIGN.md C04)
+    pub open spec fn token_of(&self, d: u64) -> VectorCoherenceToken {
+        VectorCoherenceToken {
+            version: self.versions@[self.external_to_internal@[d] as int],
+            digest: self.digests@[self.external_to_internal@[d] as int],
+        }
+    }
+    // `o` is exactly what the canonical view holds for id `d` (None iff `d` is not live)
+    pub open spec fn fetched(&self, d: u64, o: Option<(Vec<f32>, HashMap<String, String>)>) -> bool {
+        &&& o.is_some() == self@.contains_key(d)
+        &&& o.is_some() ==> o.unwrap().0@ == self@[d].0 && o.unwrap().1@ =~= self@[d].1
+    }
+    pub open spec fn fetched_with_token(&self, d: u64, o: Option<(Vec<f32>, HashMap<String, String>, VectorCoherenceToken)>) -> bool {
+        &&& o.is_some() == self@.contains_key(d)
+        &&& o.is_some() ==> o.unwrap().0@ == self@[d].0 && o.unwrap().1@ =~= self@[d].1 && o.unwrap().2 == self.token_of(d)
+    }
+}
+
 #[verifier::external_body]
 fn vx_count_tombstones(s: &DocumentStore) -> usize { unimplemented!() }
 #[verifier::external_body]
